@@ -141,7 +141,7 @@ def run(check: Check) -> None:
             for tag, msg in found:
                 check.violation(f"metadata::{tag}", f"({out} output) {formula!r}: {msg}", dict(p, tag=tag))
     # cluster_by="numerical_factors" reorders the COLUMNS: term ranges follow them, every lookup still selects its own term's columns
-    for formula, out in itertools.product(("a + A + b + a:A", "A + a + B + b:B + a:A", "a + b + A + a:A + b:B + B", "0 + A + a + a:A:B + b"), ("pandas", "numpy", "sparse")):
+    for formula, out in itertools.product(("a + A + b + a:A", "A + a + B + b:B + a:A", "a + b + A + a:A + b:B + B", "0 + A + a + a:A:B + b", "a + b + a:A + b:A"), ("pandas", "numpy", "sparse")):
         p = {"kind": "c10_clustered", "formula": formula, "output": out}
         bad = replays.run(p)
         check.case(f"clustered:{formula}:{out}")
